@@ -304,3 +304,10 @@ def run(ctx: Ctx):
     connect_failure_closes(ctx, "C13-R7")
     from .common_node import ready_state_stores
     ready_state_stores(ctx, "C13-R8")
+    # a closed connection leaves the tables when the I/O loop acts on its wake-up: the id the
+    # connection writes to the self-pipe and the id the loop reads are the same size
+    from .common_node import wakeup_tokens_all_handled
+    wakeup_tokens_all_handled(ctx, "C13-R11")
+    # writer, readers and purge of the flat transaction tables agree on the key
+    from .common_node import transaction_table_keys
+    transaction_table_keys(ctx, "C13-R12")
